@@ -289,6 +289,17 @@ def lookupK {α} (k : Key) : List (Key × α) → Option α
   | [] => none
   | (k', v) :: rest => if k == k' then some v else lookupK k rest
 
+/-- Go key type of the map a map schema unserializes to (`ReflectedType` of the key schema) -/
+def Ty.keyTy : Ty → KeyTy
+  | .int _ _ _ | .enumInt _ _ => .int64
+  | .str _ _ _ | .enumStr _ => .string
+  | _ => .other
+
+/-- is the schema's `ReflectedType` the empty interface? -/
+def Ty.reflectsAny : Ty → Bool
+  | .any | .oneOf _ _ _ _ => true
+  | _ => false
+
 /-! ### the schema operations -/
 
 /-- One operation of the SDK on a schema and a Go value.
@@ -405,7 +416,7 @@ def run (x : Ext) : Nat → Op → Env → Ty → V → Out V
             | .err er => .err er
             | .panic => .panic
             | .fuel => .fuel) kvs).bind fun kvs' =>
-            if dupKey kvs' then .cerr else .ok (.map ⟨.other, false⟩ kvs')
+            if dupKey kvs' then .cerr else .ok (.map ⟨kt.keyTy, vt.reflectsAny⟩ kvs')
         | .V | .C =>
           (forKV (fun k e =>
             match (run x fuel op env kt k).addSeg ("{" ++ fmtKey k ++ "}") with
@@ -509,8 +520,9 @@ def run (x : Ext) : Nat → Op → Env → Ty → V → Out V
               then .cerr else done
         | _ => (rewrapC (run x fuel .U env t v)).bind fun _ => done
     | .oneOf intKey disc inlined members =>
-      -- `validateMap`: discriminator of the exact key type, member lookup, member data compatibility
-      let validateMap (m : List (String × V)) : Out (Key × Ty × List (String × V)) :=
+      -- `selectMember`: discriminator of the exact key type, member lookup;
+      -- `validateMap` (compat = true) adds the member's data-mode compatibility check
+      let validateMap (compat : Bool) (m : List (String × V)) : Out (Key × Ty × List (String × V)) :=
         let typed : Option Key := match lookupS disc m with
           | some (.int .int64 n) => if intKey then some (.i n) else none
           | some (.str s) => if intKey then none else some (.s s)
@@ -522,7 +534,9 @@ def run (x : Ext) : Nat → Op → Env → Ty → V → Out V
           | none => .cerr
           | some mt =>
             let clone := if inlined then m else eraseKey disc m
-            (rewrapC (run x fuel .C env mt (toStrAny clone))).bind fun _ => .ok (key, mt, clone)
+            if compat then
+              (rewrapC (run x fuel .C env mt (toStrAny clone))).bind fun _ => .ok (key, mt, clone)
+            else .ok (key, mt, clone)
       match op with
       | .U =>
         match v with
@@ -559,7 +573,7 @@ def run (x : Ext) : Nat → Op → Env → Ty → V → Out V
           match strKeys? kvs with
           | none => .panic
           | some m =>
-            (validateMap m).bind fun (key, mt, clone) =>
+            (validateMap false m).bind fun (key, mt, clone) =>
               if op == .V then
                 ((run x fuel .V env mt (toStrAny clone)).addSeg ("{oneof[" ++ key.fmt ++ "]}")).bind fun _ => done
               else
@@ -576,7 +590,7 @@ def run (x : Ext) : Nat → Op → Env → Ty → V → Out V
         | .map ⟨.string, true⟩ kvs =>
           match strKeys? kvs with
           | none => .panic
-          | some m => (validateMap m).bind fun _ => done
+          | some m => (validateMap true m).bind fun _ => done
         | _ => .cerr
     | .ref id =>
       match lookupS id env with
